@@ -26,7 +26,7 @@ ASSUMPTIONS = ["following the server's smaller block size in later Block1 reques
                "a non-block answer in the middle of a Block2 transfer may be accepted as the complete representation"]
 EXPECTED_PROBES = ["block1_multi", "block2_multi", "szx_reduced_block1", "szx_reduced_block2", "misbehave_b1_wrong_num",
                    "misbehave_b1_more_on_final", "misbehave_b2_short", "misbehave_b2_skip", "misbehave_b2_etag_change",
-                   "misbehave_b2_etag_presence_change", "block1_acked_without_more_bit", "retransmitted_block", "unfragmented_1124"]
+                   "misbehave_b2_etag_presence_change", "block1_acked_without_more_bit", "block1_transfer_rejected_midway", "retransmitted_block", "unfragmented_1124"]
 
 LENGTHS = [0, 1, 15, 16, 17, 31, 32, 33, 63, 64, 65, 127, 128, 129, 511, 512, 513, 1023, 1024, 1025, 1124, 1125,
            2047, 2048, 2049, 3000, 5000]
@@ -74,6 +74,8 @@ def gen_transfer(r, i):
         tr["at"] = r.randrange(0, 4)
     if r.chance(0.15):
         tr["s1_stateless"] = True
+    elif r.chance(0.1):
+        tr["s1_reject_at"] = r.randrange(0, 3)
     return tr
 
 
@@ -199,8 +201,16 @@ class RefServer7959(ScriptedEndpoint):
             if num * size != len(st["buf"]) or (more and len(msg["payload"]) != size):
                 st["b1_offsets_ok"] = False
                 return {"code": rc.REQUEST_ENTITY_INCOMPLETE, "options": [], "payload": b""}
-            st["buf"] += msg["payload"]
             k = st["b1_count"]
+            if spec.get("s1_reject_at") is not None and k == spec["s1_reject_at"] and more:
+                # the server refuses the transfer half way (4.13 with the block option echoed): the transfer is over,
+                # the caller has to learn about it, and nothing more of it is sent
+                st["rejected"] = self.loop.now
+                st["b1_count"] += 1
+                self.sim.probe("block1_transfer_rejected_midway")
+                return {"code": rc.code(4, 13), "options": [(rc.BLOCK1, rc.block_bytes(num, False, min(szx, st["s1"])))],
+                        "payload": b"too large"}
+            st["buf"] += msg["payload"]
             st["b1_count"] += 1
             if spec["s1_reduce"] and k >= spec["s1_reduce"][0]:
                 if spec["s1_reduce"][1] < st["s1"]:
@@ -422,6 +432,19 @@ def execute(sim, scn):
                 in_b2 = True
         if st["bodies"] or st["fragmented_request"]:
             sim.nontrivial = True
+        if st.get("rejected") is not None and rec is not None and wire_ok:
+            # conforming server that refused the request body half way
+            later = [e for e in wire if e["src"] == me and e["msg"] is not None and rc.opt1(e["msg"], rc.URI_PATH) == b"x%d" % tid
+                     and 1 <= e["msg"]["code"] < 32 and e["t"] > st["rejected"] and rc.opt1(e["msg"], rc.BLOCK1) is not None
+                     and rc.block_value(rc.opt1(e["msg"], rc.BLOCK1))[0] > 0
+                     and e["data"] not in {x["data"] for x in wire if x["t"] <= st["rejected"]}]
+            if not rec["done"]:
+                sim.violation("C05/transfer-never-completed", ident)
+            elif rec["outcome"] == "response" and rec["response"].code.is_successful():
+                sim.violation("C05/rejected-transfer-reported-as-success", dict(ident, code=str(rec["response"].code)))
+            elif later and not faults.active(scn.get("net")):
+                sim.violation("C05/blocks-sent-after-rejection", dict(ident, n=len(later)))
+            continue
         misbehaving = tr["misbehave"] is not None and st.get("misbehaved")
         nonblock = st.get("nonblock")
         if rec is None or not wire_ok:
@@ -442,7 +465,7 @@ def execute(sim, scn):
                     sim.anomaly("misbehaving-server-error-not-a-library-error", repr(exc))
                 continue
             # conforming server: failures are legitimate only when the network killed an exchange
-            if isinstance(exc, error.NetworkError) and any(scn.get("net", {}).values()):
+            if isinstance(exc, error.NetworkError) and faults.active(scn.get("net")):
                 continue
             sim.violation("C05/conforming-transfer-failed", dict(ident, exc=repr(exc)))
             continue
